@@ -164,6 +164,14 @@ def die_code(code, mw=2):
               WAIT, ["submit_expect", "z"], shutdown(True)])
 
 
+def die_unwatched(code, mw=2):
+    """A worker ends abruptly while the caller is not waiting on that task; the caller then shuts
+    the executor down: the lifecycle is over from its point of view."""
+    return P(f"die-unwatched-code{code}-w{mw}", pool(max_workers=mw),
+             [NEW, sub("a", "ok", 1), ["result", "a"], sub("d", "die", code), ["sleep", 0.2],
+              shutdown(True)])
+
+
 def die_then_submit(mw=2):
     return P(f"die-submit-w{mw}", pool(max_workers=mw),
              [NEW, sub("a", "ok", 1), ["result", "a"], sub("d", "die"), sub("c", "ok", 3), WAIT,
